@@ -185,4 +185,8 @@ def interstitial_extras(tier='quick', seed=0):
         fcc = C.FCC(1., 'Ni')
         cr = fcc.addbasis(fcc.Wyckoffpos(np.array([0.5, 0.5, 0.5])) + fcc.Wyckoffpos(np.array([0.25, 0.25, 0.25])), ['H'])
         return _entry('FCC+oct+tet', cr, chem=1, nshell=1, interstitial=True)
-    return [('BCC+oct+tet', bccOT), ('FCC+oct+tet', fccOT)]
+    def p4mm():
+        # polar tetragonal host (no inversion: pseudo-inverse branch of the bias solve), mobile species on two Wyckoff sets, NV = 2
+        cr = C(np.diag([1., 1., 1.3]), [[np.zeros(3)], [np.array([0, 0, 0.42])], [np.array([.5, .5, .18]), np.array([.5, 0, .7]), np.array([0, .5, .7])]], chemistry=['A', 'B', 'X'])
+        return _entry('P4mm-polar-3site', cr, chem=2, cutoff=0.95, interstitial=True, polar=True)
+    return [('BCC+oct+tet', bccOT), ('FCC+oct+tet', fccOT), ('P4mm-polar-3site', p4mm)]
